@@ -175,6 +175,13 @@ class OperationExecutor(ABC, Generic[T]):
             InvalidStateError: If the check result is in an invalid state
             May raise operation-specific errors from check_result_status() or execute()
         """
+        # A branch whose enclosing map / parallel / child context has been handed its completion
+        # record is stopped at its next durable operation - also when that operation is answered
+        # from its record or only traversed again.
+        state: ExecutionState | None = getattr(self, "state", None)
+        if state is not None:
+            state.raise_if_in_orphaned_branch(self.operation_identifier.parent_id)
+
         # Check 1: Entry (handles replay and existing checkpoints)
         result = self.check_result_status()
 
@@ -191,15 +198,13 @@ class OperationExecutor(ABC, Generic[T]):
             if result.checkpointed_result is None:
                 msg = "CheckResult is marked ready to execute but checkpointed result is not set."
                 raise InvalidStateError(msg)
-            # An operation that is resumed (found STARTED / READY, or a summarised context whose
-            # body runs again) gets here without having sent a checkpoint, and a checkpoint is where
-            # a branch whose parent context already completed is normally stopped. Ask before any
-            # user code of the operation runs.
-            # (A context recorded SUCCEEDED whose summarised body is traversed again is replay,
-            # not new work: everything beneath a context that completed normally is marked as
-            # done as well, so asking there - or for an operation inside it that runs no user
-            # code, such as a callback that is still open - would reject a legitimate re-traversal.)
-            state: ExecutionState | None = getattr(self, "state", None)
+            # An operation that is resumed (found STARTED / READY) gets here without having sent a
+            # checkpoint, and a checkpoint is where a branch whose parent context already completed
+            # is normally stopped. Ask before any user code of the operation runs.
+            # (What is only traversed again - a context recorded SUCCEEDED whose summarised body
+            # runs again, an operation that runs no user code such as a callback that is still
+            # open - may sit beneath a context that completed normally in this invocation, where
+            # everything is marked as done: it was judged by the branch doing the traversal above.)
             if (
                 state is not None
                 and self.runs_user_code
